@@ -88,7 +88,7 @@ Fresh(l, cfg, prev) ==
    reqs |-> << >>, hmap |-> << >>, recn |-> 0,
    owed |-> << >>, aw |-> 0, sids |-> {},
    unres |-> {}, dcids |-> {}, dcconn |-> FALSE, pe |-> "", pio |-> "", c10off |-> FALSE, dcan |-> FALSE, taint |-> 0, connectLen |-> 0, d9b |-> FALSE,
-   lastDone |-> 0, afterPing |-> FALSE, pingAt |-> -1, pingDoneAt |-> -1, pingOut |-> FALSE, overslept |-> TRUE, wake |-> -1,
+   lastDone |-> 0, afterPing |-> FALSE, pingAt |-> -1, pingDoneAt |-> -1, pingOut |-> FALSE, pcan |-> FALSE, overslept |-> TRUE, wake |-> -1,
    dead |-> FALSE, ioDead |-> << 0, 0, 0 >>, lastio |-> << 0, 0, 0 >>,
    sum |-> EmptySum, prev |-> prev, mark |-> 0,
    lastobs |-> [live |-> FALSE, q |-> TRUE, h |-> << >>],
@@ -183,7 +183,8 @@ ViolEach(h, h0, S, why) ==
 C17Owed(h0, h) ==
   IF h0.ack.have /\ h0.ack.sp = 1 /\ Owing(h0) # {}
   THEN LET why == "a packet that equals no first transmission was sent while retransmissions are owed"
-           ps == {OwedProp(h0.reqs[j]) : j \in Owing(h0)} \cup {"C05"}
+           \* ... which is also a partial outbound packet carried over to the new connection (C12)
+           ps == {OwedProp(h0.reqs[j]) : j \in Owing(h0)} \cup {"C05", "C12"}
                    \cup (IF {j \in Owing(h0) : h0.reqs[j].ph = "new"} # {} THEN {"C17"} ELSE {})
        IN ViolEach(h, h0, ps, why)
   ELSE h
@@ -395,7 +396,12 @@ OnOut(h, pkt) ==
      ELSE IF d.t \in {PUBLISH, SUBSCRIBE, UNSUBSCRIBE} THEN OutRequest(h5, d, pkt)
      ELSE IF d.t \in {PUBACK, PUBREC, PUBCOMP} THEN OutAck(h5, d)
      ELSE IF d.t = PUBREL THEN OutPubrel(h5, d)
-     ELSE IF d.t = PINGREQ THEN Check(h5, h.K > 0, "C10", "PINGREQ although the keep-alive is zero")
+     ELSE IF d.t = PINGREQ THEN
+          \* C13: uncancelled, the client never sends a second PINGREQ while one is unanswered
+          LET h6 == IF (h.pingAt >= 0 \/ h.pingOut) /\ h.pcan
+                    THEN Viol(Tick(h5, "C13"), "C13", "after a cancellation a second PINGREQ was sent while the first is still unanswered")
+                    ELSE h5
+          IN Check(h6, h.K > 0, "C10", "PINGREQ although the keep-alive is zero")
      ELSE IF d.t = DISCONNECT THEN OutDisconnect(h5, d)
      ELSE h5
 
@@ -504,7 +510,7 @@ OnIn(h, pkt) ==
   ELSE IF d.t = PUBREL THEN
        [h0 EXCEPT !.owed = Append(@, OwedAck(PUBCOMP, d.id, IF d.id \in h.sids THEN 0 ELSE 146, h.ci)),
                   !.sids = @ \ {d.id}]
-  ELSE IF d.t = PINGRESP THEN [h0 EXCEPT !.pingAt = -1, !.pingDoneAt = h.now]
+  ELSE IF d.t = PINGRESP THEN [h0 EXCEPT !.pingAt = -1, !.pingDoneAt = h.now, !.pcan = FALSE]
   ELSE IF d.t = DISCONNECT THEN [h0 EXCEPT !.op.disc = TRUE]
   ELSE h0
 
@@ -590,7 +596,7 @@ IoOnDead(h) ==
 StepConn(h, e) ==
   [h EXCEPT !.ci = @ + 1, !.wtail = << >>, !.wn = 0, !.wdisc = FALSE, !.rtail = << >>,
             !.btail = << >>, !.ack = NoAck, !.aw = 0, !.unres = {}, !.dcan = FALSE, !.taint = 0,
-            !.dead = FALSE, !.c10off = FALSE, !.dcconn = FALSE, !.pio = "", !.pingAt = -1, !.pingOut = FALSE, !.overslept = TRUE, !.up = FALSE,
+            !.dead = FALSE, !.c10off = FALSE, !.dcconn = FALSE, !.pio = "", !.pingAt = -1, !.pingOut = FALSE, !.pcan = FALSE, !.overslept = TRUE, !.up = FALSE,
             !.op = [name |-> "conn", l |-> h.l, prog |-> FALSE, nin |-> 0, bad |-> FALSE,
                     dc |-> FALSE, disc |-> FALSE, unexp |-> FALSE, fault |-> FALSE, eof |-> FALSE,
                     rej |-> -1, hasmsg |-> FALSE, deadcall |-> FALSE, healthy |-> e.healthy, nofit |-> FALSE]]
@@ -779,10 +785,16 @@ RetDrive(h, e) ==
       h5 == IF r.k = "err" /\ r.v = "Disconnected" /\ ~o.deadcall /\ ~o.eof /\ ~o.disc /\ ~o.fault /\ ~o.dc /\ ~h.c10off
             THEN Check(h4, timeout, "C10", "disconnected although no keep-alive timeout, end of stream or broker DISCONNECT occurred")
             ELSE h4
+      \* C11: a broker DISCONNECT that has been consumed is reported as the disconnected error and
+      \* kills the handle, whatever its reason code
+      h5b == IF o.disc /\ ~o.bad /\ ~o.dc /\ ~o.unexp
+             THEN Check(Tick(h5, "C11"), r.k = "err" /\ r.v = "Disconnected" /\ ~e.obs.live, "C11",
+                        "a broker DISCONNECT was not reported as disconnected / did not kill the handle")
+             ELSE h5
       \* C16: Ok(None) only after real wire progress
       h6 == IF o.name = "poll" /\ r.k = "ok" /\ ~r.hasmsg
-            THEN Check(Tick(h5, "C16"), o.prog, "C16", "poll returned without a message and without wire progress")
-            ELSE h5
+            THEN Check(Tick(h5b, "C16"), o.prog, "C16", "poll returned without a message and without wire progress")
+            ELSE h5b
       h7 == IF r.k = "err" /\ r.v = "InflightExhausted"
             THEN CheckKF(h6, FALSE, "C06", "a QoS 2 exchange was dropped because too many wait for PUBCOMP", "D6", TRUE)
             ELSE h6
@@ -875,7 +887,7 @@ StepCancel(h, e) ==
       h2 == ObsChecks(h1, e.obs)
       wrote == o.name = "disconnect" /\ o.prog
   IN [h2 EXCEPT !.op = NoOp, !.sum.res = Append(@, << o.name, "cancel", "", -1 >>),
-                !.dcan = @ \/ wrote,
+                !.dcan = @ \/ wrote, !.pcan = @ \/ h.pingOut \/ h.pingAt >= 0,
                 !.taint = IF wrote /\ h.wtail # << >> /\ @ = 0 THEN 1 ELSE @]
 
 StepW(h, e) ==
